@@ -224,3 +224,21 @@ Definition mapping_pinned (fields : list (N * string * string)) (hdr : N * N * N
                     end) rows &&
   (* every intended element is actually mapped *)
   forallb (fun p => existsb (fun r => String.eqb (fst (fst r)) (fst p)) rows) intended_map.
+
+(* the converter as INTENDED: header fields and targets looked up by the pinned proto field names
+   (element kinds still follow the code). The oracle judges the implementation against this one;
+   on the unchanged tree it equals the regenerated converter (Props/C19.v C19_spec_is_code). *)
+Definition number_of (fields : list (N * string * string)) (nm : string) : N :=
+  match find (fun r => String.eqb (snd r) nm) fields with Some r => fst (fst r) | None => 0%N end.
+Definition spec_rows (fields : list (N * string * string)) (rows : list (string * string * N)) :=
+  map (fun r => match find (fun p => String.eqb (fst p) (fst (fst r))) intended_map with
+                | Some p => (fst (fst r), snd (fst r), number_of fields (snd p))
+                | None => r
+                end) rows.
+Definition spec_hdr (fields : list (N * string * string)) : N * N * N * N :=
+  (number_of fields "TimeReceived", number_of fields "SequenceNumber",
+   number_of fields "ObsDomainID", number_of fields "ExportAddress").
+Definition conv1_spec : convertor :=
+  mkConv (schema_of proto_fields_FlowType1) (spec_hdr proto_fields_FlowType1) (spec_rows proto_fields_FlowType1 conv_rows_FlowType1).
+Definition conv2_spec : convertor :=
+  mkConv (schema_of proto_fields_FlowType2) (spec_hdr proto_fields_FlowType2) (spec_rows proto_fields_FlowType2 conv_rows_FlowType2).
